@@ -109,10 +109,10 @@ macro_rules! pairing {
         }
     };
 }
-// @harness name=c08_pairing_tc11_even props=C08,C19 tier=quick cap=1500
+// @harness name=c08_pairing_tc11_even props=C08,C19:thorough tier=quick cap=1500
 // pairing guard, TC11, even frame arrives (odd slot older), -U/-R symbolic, slot ages symbolic around the 10 s limit
 pairing!(c08_pairing_tc11_even, 11, 0);
-// @harness name=c08_pairing_tc11_odd props=C08,C19 tier=quick cap=1500
+// @harness name=c08_pairing_tc11_odd props=C08,C19:thorough tier=quick cap=1500
 // pairing guard, TC11, odd frame arrives
 pairing!(c08_pairing_tc11_odd, 11, 1);
 // @harness name=c08_pairing_tc9_odd props=C08 tier=thorough cap=1500
